@@ -36,7 +36,8 @@ def ini_for(out, okind, fmt):
         # deliver (directory missing): whatever the error handler falls back to runs in every call, in the parent's threads and in the child
         return gen.render_ini([(b"output", b"file:" + o + b"/no-such-dir/log"), (b"message_format", b"z" * 300 + b" " + fmt.encode()),
                                (b"error_logging", b"yes"), (b"log_message_max_length", b"255")])
-    val = {"file": b"file:" + o + b"/log", "devlog": b"devlog", "stdout": b"stdout", "devnull": b"devnull", "socket": b"socket:" + o + b"/sock"}[okind]
+    val = {"file": b"file:" + o + b"/log", "devlog": b"devlog", "stdout": b"stdout", "devnull": b"devnull", "socket": b"socket:" + o + b"/sock",
+           "syslog": b"syslog"}[okind]
     return gen.render_ini([(b"output", val), (b"message_format", fmt.encode())])
 
 
@@ -142,6 +143,9 @@ def run_case(d, c):
     return events, bool(parked)
 
 
+SYSLOG_BUILD = "ts-plain-syslog"
+
+
 class Inconclusive(Exception):
     pass
 
@@ -198,6 +202,8 @@ DELAY_FMT = "%{datetime}|%{login}|%{username}|%{eusername}|%{tty_username}|%{gro
 # (output, format, warm-up call first, depth, number of further threads making the same call at the same time)
 DELAY_SHAPES = [("file", DELAY_FMT, False, 1, 0), ("file", DELAY_FMT, True, 1, 0), ("devlog", "%{cmdline}", False, 1, 0), ("file", DELAY_FMT, True, 1, 1),
                 ("errlog-nodir", "%{cmdline}", True, 1, 0),
+                # the syslog output (a build with --enable-output-syslog): the C library's openlog()/syslog()/closelog() and their lock
+                ("syslog", "%{cmdline}", True, 1, 0),
                 ("stdout", "%{username} %{cmdline}", False, 2, 0), ("socket", "%{datetime} %{cmdline}", True, 1, 2)]
 PIDLINE = __import__("re").compile(r"^(\d+)\s+([a-z_0-9]+)\((.*)$")
 
@@ -265,10 +271,14 @@ def delay_worker(args):
     import trace
     idx, shapes = args
     ctx = _W["ctx"]
-    os_ = trace.OneShot(ctx.run, _W["builds"]["ts-plain"], "delay%d" % idx)
+    oss = {}
     local = Counters(ctx.known, 100 + idx)
     fails = []
     for shape, plans in shapes:
+        bname = SYSLOG_BUILD if shape[0] == "syslog" else "ts-plain"
+        if bname not in oss:
+            oss[bname] = trace.OneShot(ctx.run, _W["builds"][bname], "delay%d%s" % (idx, "sl" if bname == SYSLOG_BUILD else ""))
+        os_ = oss[bname]
         os_.write_scenario(delay_ops(os_.out, *shape))
         for name, ordn, text in plans:
             inj = "%s:delay_enter=%d:when=%d" % (name, DELAY_US, ordn)
@@ -305,10 +315,14 @@ def delay_worker(args):
 
 def delay_phase(ctx, builds):
     import trace
-    shapes = DELAY_SHAPES[:5] if ctx.quick else DELAY_SHAPES
+    shapes = DELAY_SHAPES[:6] if ctx.quick else DELAY_SHAPES
     per_shape = []
-    os_ = trace.OneShot(ctx.run, builds["ts-plain"], "delaydry")
+    os_plain = trace.OneShot(ctx.run, builds["ts-plain"], "delaydry")
+    os_syslog = trace.OneShot(ctx.run, builds[SYSLOG_BUILD], "delaydrysl") if SYSLOG_BUILD in builds else None
     for shape in shapes:
+        os_ = os_syslog if shape[0] == "syslog" else os_plain
+        if os_ is None:
+            continue
         os_.write_scenario(delay_ops(os_.out, *shape))
         rc, events = os_.run_traced([], timeout=60, follow=True)
         plans = thread_b_syscalls(os_.log)
@@ -430,8 +444,8 @@ def worker(args):
 
 def main():
     ctx = Ctx(PID, "exploration", RULE)
-    bl = ctx.run.build_many(["ts-plain", "ts-asan"])
-    builds = {"ts-plain": bl[0], "ts-asan": bl[1]}
+    bl = ctx.run.build_many(["ts-plain", "ts-asan", {"variant": "ts-plain", "name": SYSLOG_BUILD, "extra_configure": ["--enable-output-syslog"]}])
+    builds = {"ts-plain": bl[0], "ts-asan": bl[1], SYSLOG_BUILD: bl[2]}
     b = builds["ts-plain"]
     ctx.assumptions = ["scheduling points are the library's pthread_mutex_lock/unlock calls (interposed, no source change); a fork handler of "
                        "the library that waits for the parked thread's lock makes the harness release that thread (the harness is agnostic "
@@ -441,8 +455,8 @@ def main():
         case, _ = load_replay(ctx.replay)
         if "inject" in case:
             import trace
-            os_ = trace.OneShot(ctx.run, b, "replay")
             shape = tuple(case["shape"])
+            os_ = trace.OneShot(ctx.run, builds[SYSLOG_BUILD] if shape[0] == "syslog" else b, "replay")
             os_.write_scenario(delay_ops(os_.out, *shape))
             rc, events = os_.run_traced(["-e", "inject=" + case["inject"]], timeout=60, follow=True)
             ctx.count("replay-1", ["replay"], sample=case)
